@@ -1940,7 +1940,7 @@ fn parent(thorough: bool, rng: &mut Rng) -> Result<(), String> {
                 let _ = std::fs::remove_file(cur.with_extension("entry"));
                 // address-space limit: an allocation bomb aborts the child instead of the machine
                 let mut cmd = std::process::Command::new("sh");
-                cmd.arg("-c").arg("ulimit -v 8388608 2>/dev/null; exec \"$0\" \"$@\"").arg(&exe);
+                cmd.arg("-c").arg("ulimit -v 4194304 2>/dev/null; exec \"$0\" \"$@\"").arg(&exe);
                 cmd.args(["gen", "c20-batch", "--tier", if thorough { "thorough" } else { "quick" }, "--seed", &child_seed.to_string()]);
                 cmd.env("C20_PART", part.to_string()).env("C20_PARTS", parts.to_string()).env("C20_START", start.to_string())
                     .env("C20_COUNT", count.to_string()).env("C20_BUDGET_MS", left.as_millis().to_string()).env("C20_CUR", &cur)
